@@ -342,13 +342,21 @@ class Runner:
         if count:
             count("request_after_host_closed_upstream")
         full = [r for r in o2["recs"] if not r.get("partial")]
+        now = "Thu, 01 Jan 1970 00:00:00 GMT"
+        for r in full:
+            d = e2e.hget(r["headers"], b"x-ms-azure-host-date")
+            if d:
+                now = d.decode("latin-1")
+        line = model_line(o2["case"]["env"], o2["case"].get("caller"), o2["case"].get("dest"), o2["req"], now)
+        # the model of a connection whose upstream the host has closed (Attribution.afterHostClose): local answers as always, 502
+        # in place of a relay
+        mc = parse_model(vlib.run_driver(["pipec" + line[4:]])[0])
+        if o2["resp"] is None:
+            if count:
+                count("request_after_host_closed_upstream_client_connection_ended")
+        elif mc["kind"] == "respond" and not full and o2["resp"]["status"] != mc["status"]:
+            self.chk.disagreement("pipeline-host-closed", self.describe(o2), mc["status"], o2["resp"]["status"])
         if full:
-            now = "Thu, 01 Jan 1970 00:00:00 GMT"
-            for r in full:
-                d = e2e.hget(r["headers"], b"x-ms-azure-host-date")
-                if d:
-                    now = d.decode("latin-1")
-            line = model_line(o2["case"]["env"], o2["case"].get("caller"), o2["case"].get("dest"), o2["req"], now)
             m = parse_model(vlib.run_driver([line])[0])
             o2["model"] = m
             if count:
